@@ -485,23 +485,46 @@ func parsePackageOnlyAnnotation(commentText string, objectName string, pos token
 // Returns: (kind, receiverType)
 // - For methods: (TestOnlyOnMethod, "MyStruct")
 // - For functions: (TestOnlyOnFunc, "")
-func getFuncKindAndReceiver(funcDecl *ast.FuncDecl) (TestOnlyKind, string) {
+func getFuncKindAndReceiver(pass *analysis.Pass, funcDecl *ast.FuncDecl) (TestOnlyKind, string) {
 	if funcDecl.Recv != nil && len(funcDecl.Recv.List) > 0 {
 		// It's a method
-		receiverType := ExtractReceiverType(funcDecl.Recv.List[0].Type)
-		return TestOnlyOnMethod, receiverType
+		return TestOnlyOnMethod, ReceiverTypeName(pass, funcDecl)
 	}
 	// It's a function
 	return TestOnlyOnFunc, ""
 }
 
+// ReceiverTypeName returns the name of the defined type a method is declared on.
+// The receiver may be spelled through parentheses or a type alias
+// (func (t *(T)) M(), func (t (*T)) M(), func (t *Alias) M()): the type checker
+// knows the type; without type information the spelling is used
+func ReceiverTypeName(pass *analysis.Pass, funcDecl *ast.FuncDecl) string {
+	if funcDecl.Recv == nil || len(funcDecl.Recv.List) == 0 {
+		return ""
+	}
+	if pass != nil && pass.TypesInfo != nil {
+		if fn, ok := pass.TypesInfo.Defs[funcDecl.Name].(*types.Func); ok {
+			if sig, ok := fn.Type().(*types.Signature); ok && sig.Recv() != nil {
+				t := types.Unalias(sig.Recv().Type())
+				if ptr, ok := t.(*types.Pointer); ok {
+					t = types.Unalias(ptr.Elem())
+				}
+				if named, ok := t.(*types.Named); ok {
+					return named.Obj().Name()
+				}
+			}
+		}
+	}
+	return ExtractReceiverType(funcDecl.Recv.List[0].Type)
+}
+
 // ExtractReceiverType extracts the receiver type name from a receiver type expression
 // Examples: *MyStruct -> MyStruct, MyStruct -> MyStruct
 func ExtractReceiverType(expr ast.Expr) string {
-	switch t := expr.(type) {
+	switch t := ast.Unparen(expr).(type) {
 	case *ast.StarExpr:
 		// Pointer receiver: *MyStruct
-		if ident, ok := t.X.(*ast.Ident); ok {
+		if ident, ok := ast.Unparen(t.X).(*ast.Ident); ok {
 			return ident.Name
 		}
 	case *ast.Ident:
@@ -653,7 +676,7 @@ func ReadAllAnnotations(
 			pos := funcDecl.Pos()
 
 			// Determine if it's a method or function
-			kind, receiverType := getFuncKindAndReceiver(funcDecl)
+			kind, receiverType := getFuncKindAndReceiver(pass, funcDecl)
 
 			for _, comment := range funcDecl.Doc.List {
 				text := comment.Text
